@@ -142,6 +142,27 @@ var mutants = []Mutant{
 	{"C20-hub-early-return", "C20", "minter-connector/command/command.go", `\t\tif _, err := sdk\.AccAddressFromBech32\(cmd\.Recipient\); err != nil \{\n\t\t\treturn err\n\t\t\}\n`, "\t\t_, err := sdk.AccAddressFromBech32(cmd.Recipient)\n\t\treturn err\n", "C20.validate", "hub deposits skip the fee checks"},
 	{"C20-negative-fee", "C20", "minter-connector/command/command.go", `\tif fee\.IsNegative\(\) \{\n\t\treturn errors\.New\("incorrect fee"\)\n\t\}\n`, ``, "C20.validate", "negative fee accepted"},
 	{"C20-no-restore", "C20", "minter-connector/minter/minter.go", `(?s)(ctx\.Logger\.Debug\("Found batch"\).*?)\t\t\t\t\t\tctx\.SetLastEventNonce\(eventNonce\)\n`, "$1", "C20.cursor", "event counter not restored before rewinding"},
+	// operators added with the rules of the second seeding round
+	{"C06-global-cache", "C06", "module/x/mhub2/keeper/keeper.go", `func \(k Keeper\) SetTokenInfos\(ctx sdk\.Context, tokenInfos \*types\.TokenInfos\) \{\n`, "var cachedTokenInfosM *types.TokenInfos\n\nfunc (k Keeper) SetTokenInfos(ctx sdk.Context, tokenInfos *types.TokenInfos) {\n\tcachedTokenInfosM = tokenInfos\n", "C06.global-state", "token list cached in a package-level variable"},
+	{"C07-memoised-digest", "C07", "module/x/mhub2/types/outgoing_tx.go", `\treturn packCall\(SignerSetTxCheckpointABIJSON, "checkpoint", args\)\n`, "\tlastCheckpointM = packCall(SignerSetTxCheckpointABIJSON, \"checkpoint\", args)\n\treturn append([]byte{}, lastCheckpointM...)\n}\n\nvar lastCheckpointM []byte\n\nfunc init() {\n", "C07.pure", "signer-set digest kept in a package-level variable and returned through a copy"},
+	{"C17-key-no-chain", "C17", "module/x/mhub2/types/key.go", `return bytes\.Join\(\[\]\[\]byte\{\{OrchestratorValidatorAddressKey\}, chainId\.Bytes\(\), orc\.Bytes\(\)\}, \[\]byte\{\}\)`, "return append([]byte{OrchestratorValidatorAddressKey}, orc.Bytes()...)", "C17.key-shape", "orchestrator index no longer per chain"},
+	{"C02-nonce-rewind", "C02", "module/x/mhub2/keeper/msg_server.go", `(\tk\.setExternalOrchestratorAddress\(ctx, chainId, ethAddr, orchAddr\)\n)`, "${1}\tk.setLastEventNonceByValidator(ctx, chainId, valAddr, k.GetLastObservedEventNonce(ctx, chainId))\n", "C02.one-vote", "key registration rewinds the validator's event nonce"},
+	{"C04-delete-refund-chain", "C04", "module/x/mhub2/keeper/pool.go", `_, err := k\.createSendToExternal\(ctx, types\.ChainID\(send\.RefundChainId\), types\.TempAddress`, "chainId = types.ChainID(send.RefundChainId)\n\t\t\t_, err := k.createSendToExternal(ctx, chainId, types.TempAddress", "C04.key-agreement", "the refunded entry is deleted under the refund chain's key"},
+	{"C12-drop-if-refunded", "C12", "module/x/mhub2/keeper/pool.go", `(\t\treturn fmt\.Errorf\("can't cancel a message you didn't send"\)\n\t\}\n)`, "${1}\tif k.GetTxStatus(ctx, send.TxHash).Status == types.TX_STATUS_REFUNDED {\n\t\tk.deleteUnbatchedSendToExternal(ctx, chainId, send.Id, send.Fee)\n\t\treturn nil\n\t}\n", "C12.once", "entry dropped without refund when its tx hash is already marked refunded"},
+	{"C12-sweep-stops", "C12", "module/x/mhub2/abci.go", `(\t\t\t\texpired = append\(expired, ste\)\n\t\t\t\}\n\t\t\treturn )false`, "${1}len(expired) == 0", "C12.expiry", "expiry sweep stops at the first live entry"},
+	{"C15-height-cross-wired", "C15", "module/x/mhub2/keeper/genesis.go", `externalState\.LatestBlockHeight\.ExternalHeight\)`, "externalState.LatestBlockHeight.CosmosHeight)", "C15.faithful-import", "hub height imported as observed external height"},
+	{"C13-height-cross-wired", "C13", "module/x/mhub2/keeper/genesis.go", `externalState\.LatestBlockHeight\.ExternalHeight\)`, "externalState.LatestBlockHeight.CosmosHeight)", "C13.timeout-guard", "hub height imported as observed external height"},
+	{"C15-oracle-joint-guard", "C15", "module/x/oracle/keeper/genesis.go", `if data\.Prices != nil \{`, "if data.Prices != nil && data.Holders != nil {", "C15.faithful-import", "prices imported only when holders are present too"},
+	{"C15-export-bonded-only", "C15", "module/x/mhub2/keeper/keeper.go", `(iter := prefix\.NewStore\(store, append\(\[\]byte\{types\.ValidatorExternalAddressKey\}, chainId\.Bytes\(\)\.\.\.\)\)\.Iterator\(nil, nil\)\n\tfor ; iter\.Valid\(\); iter\.Next\(\) \{\n)`, "${1}\t\tif val := k.StakingKeeper.Validator(ctx, iter.Key()); val == nil || !val.IsBonded() {\n\t\t\tcontinue\n\t\t}\n", "C15.export-own-state", "delegate keys of non-bonded validators not exported"},
+	{"C14-negative-admissible", "C14", "module/x/mhub2/types/external_event.go", `if ttce\.Amount\.IsNegative\(\) \{`, "if ttce.Amount.IsZero() {", "C14.injective", "negative transfer amounts pass Validate"},
+	{"C14-amount-low64", "C14", "module/x/mhub2/types/external_event.go", `sthe\.Amount\.BigInt\(\)\.Bytes\(\)`, "sdk.Uint64ToBigEndian(sthe.Amount.BigInt().Uint64())", "C14.injective", "deposit amount hashed modulo 2^64"},
+	{"C09-copy-before-sort", "C09", "module/x/mhub2/types/types.go", `\tmembers\.Sort\(\)\n\tvar mem \[\]\*ExternalSigner\n\tfor _, val := range members \{\n\t\tmem = append\(mem, val\)\n\t\}\n`, "\tmem := make([]*ExternalSigner, len(members))\n\tcopy(mem, members)\n\tmembers.Sort()\n", "C09.sorted", "members copied before they are sorted"},
+	{"C09-hash-sorts-copy", "C09", "module/x/mhub2/types/types.go", `\tb\.Sort\(\)\n\tvar out bytes\.Buffer\n\tfor _, s := range b \{`, "\tsorted := make(ExternalSigners, len(b))\n\tcopy(sorted, b)\n\tsorted.Sort()\n\tvar out bytes.Buffer\n\tfor _, s := range sorted {", "C09.sorted", "members hash no longer canonicalises the reported set in place"},
+	{"C09-powerdiff-no-else", "C09", "module/x/mhub2/types/types.go", `\t\t\} else \{\n\t\t\tpowers\[es\.ExternalAddress\] = -int64\(es\.Power\)\n\t\t\}\n`, "\t\t}\n", "C09.freshness-trigger", "validators that left the set not counted in the drift"},
+	{"C17-scan-wrong-index", "C17", "module/x/mhub2/keeper/keeper.go", `(func \(k Keeper\) getValidatorsByExternalAddress\([^\n]*\n\titer := [^\n]*\n\n\tfor ; iter\.Valid\(\); iter\.Next\(\) \{\n)`, "${1}\t\tif !bytes.HasPrefix(iter.Key(), []byte{types.ExternalOrchestratorAddressKey}) {\n\t\t\tcontinue\n\t\t}\n", "C17.guards", "in-use scan filters on another index and matches nothing"},
+	{"C11-sender-chain-rate", "C11", "module/x/mhub2/keeper/external_event_handler.go", `receiverChainTokenInfo\.Commission\)\.`, "senderChainTokenInfo.Commission).", "C11.commission-form", "cross-chain transfer charged the source chain's rate"},
+	{"C18-first-report-sticks", "C18", "module/x/oracle/keeper/attestation.go", `(func \(k Keeper\) storeClaim\(ctx sdk\.Context, details types\.Claim\) error \{\n)`, "${1}\tif k.HasClaim(ctx, details) {\n\t\treturn types.ErrDuplicate\n\t}\n", "C18.latest", "a validator's second report of an epoch is refused"},
+	{"C20-count-undecodable-edit", "C20", "minter-connector/minter/minter.go", `(\t\t\t\t\t\tctx\.SetLastValsetNonce\(uint64\(nonce\)\)\n)\t\t\t\t\t\tctx\.SetLastEventNonce\(ctx\.LastEventNonce\(\) \+ 1\)\n\t\t\t\t\t\}\n`, "${1}\t\t\t\t\t}\n\t\t\t\t\tctx.SetLastEventNonce(ctx.LastEventNonce() + 1)\n", "C20.counted-iff-valid", "multisig edits with an undecodable payload counted by the resync scan"},
 	{"C20-count-invalid", "C20", "minter-connector/minter/minter.go", `if cmd\.ValidateAndComplete\(value\) == nil \{`, `if cmd.ValidateAndComplete(value) == nil || true {`, "C20.counted-iff-valid", "invalid commands counted by the resync scan"},
 }
 
